@@ -158,4 +158,81 @@ theorem skipBlank_eof : ∀ (t : List Line) (ln : Int), (∀ l ∈ t, isBlank l 
   | l :: t, ln, h => by
     simp [skipBlankGo, h l (by simp), skipBlank_eof t (ln + 1) (fun x hx => h x (by simp [hx]))]
 
+/-! ### the `peekPushAll` peek leaves the iterator unchanged when a non-blank line is left -/
+
+theorem collectGo_pushAll : ∀ (pending acc : List Line) (ln : Int), (∃ l ∈ pending, isBlank l = false) →
+    ∃ acc' rest ln', collectGo pending acc ln = some (acc', rest, ln') ∧
+      pushAll acc' ⟨rest, ln'⟩ = pushAll acc ⟨pending, ln⟩
+  | [], _, _, h => by obtain ⟨l, hl, _⟩ := h; simp at hl
+  | l :: t, acc, ln, h => by
+    by_cases hb : isBlank l = true
+    · have h' : ∃ x ∈ t, isBlank x = false := by
+        obtain ⟨x, hx, hxb⟩ := h
+        simp at hx
+        cases hx with
+        | inl e => subst e; simp [hb] at hxb
+        | inr e => exact ⟨x, e, hxb⟩
+      obtain ⟨acc', rest, ln', h1, h2⟩ := collectGo_pushAll t (l :: acc) (ln + 1) h'
+      refine ⟨acc', rest, ln', by simp [collectGo, hb, h1], ?_⟩
+      rw [h2]
+      simp [pushAll]
+    · refine ⟨l :: acc, t, ln + 1, by simp [collectGo, hb], ?_⟩
+      simp [pushAll]
+
+theorem peekPushAll_go (s : Lit) (first : Bool) (h : ∃ l ∈ s.pending, isBlank l = false) :
+    runPeek .peekPushAll first s = .go s := by
+  obtain ⟨acc', rest, ln', h1, h2⟩ := collectGo_pushAll s.pending [] s.lineno h
+  simp [runPeek, h1, h2, pushAll]
+
+theorem collectGo_none : ∀ (pending acc : List Line) (ln : Int), (∀ l ∈ pending, isBlank l = true) →
+    collectGo pending acc ln = none
+  | [], _, _, _ => rfl
+  | l :: t, acc, ln, h => by
+    simp [collectGo, h l (by simp), collectGo_none t (l :: acc) (ln + 1) (fun x hx => h x (by simp [hx]))]
+
+
+/-! ### pdb.load_one's loop over the blocks of a written frame -/
+
+section pdb
+variable {α β : Type} (pa : Line → Option α) (fa : α → Line) (pb : Line → Option β) (fb : β → Line)
+
+theorem pdbGo_title (l : Line) (t : List Line) (ln : Int) (acc : PdbFrame α β) (found : Bool) :
+    pdbGo pa pb ((ljust 10 pTITLE ++ l) :: t) ln acc found =
+      pdbGo pa pb t (ln + 1) { acc with titles := acc.titles ++ [strip l] } found := by
+  simp [pdbGo, ljust, pTITLE, startsWith]
+
+theorem pdbGo_compnd (l : Line) (t : List Line) (ln : Int) (acc : PdbFrame α β) (found : Bool) :
+    pdbGo pa pb ((ljust 10 pCOMPND ++ l) :: t) ln acc found =
+      pdbGo pa pb t (ln + 1) { acc with compnd := acc.compnd ++ [strip l] } found := by
+  simp [pdbGo, ljust, pTITLE, pCOMPND, startsWith]
+
+theorem pdbGo_atoms (ha : ∀ a, pa (pATOM ++ [' ', ' '] ++ fa a) = some a) :
+    ∀ (as : List α) (t : List Line) (ln : Int) (acc : PdbFrame α β) (found : Bool),
+      ∃ ln', pdbGo pa pb (as.map (fun a => pATOM ++ [' ', ' '] ++ fa a) ++ t) ln acc found =
+        pdbGo pa pb t ln' { acc with atoms := acc.atoms ++ as } (found || !as.isEmpty)
+  | [], t, ln, acc, found => ⟨ln, by simp⟩
+  | a :: as, t, ln, acc, found => by
+    obtain ⟨ln', ih⟩ := pdbGo_atoms ha as t (ln + 1) { acc with atoms := acc.atoms ++ [a] } true
+    refine ⟨ln', ?_⟩
+    have h := ha a
+    simp only [pATOM, List.cons_append, List.nil_append] at h
+    simp [pdbGo, pATOM, pTITLE, pCOMPND, startsWith, h]
+    simpa [pATOM] using ih
+
+theorem pdbGo_conects (hb : ∀ b, pb (pCONECT ++ fb b) = some b) :
+    ∀ (bs : List β) (t : List Line) (ln : Int) (acc : PdbFrame α β) (found : Bool),
+      ∃ ln', pdbGo pa pb (bs.map (fun b => pCONECT ++ fb b) ++ t) ln acc found =
+        pdbGo pa pb t ln' { acc with conects := acc.conects ++ bs } found
+  | [], t, ln, acc, found => ⟨ln, by simp⟩
+  | b :: bs, t, ln, acc, found => by
+    obtain ⟨ln', ih⟩ := pdbGo_conects hb bs t (ln + 1) { acc with conects := acc.conects ++ [b] } found
+    refine ⟨ln', ?_⟩
+    have h := hb b
+    simp only [pCONECT, List.cons_append, List.nil_append] at h
+    simp [pdbGo, pATOM, pHETATM, pCONECT, pTITLE, pCOMPND, startsWith, h]
+    simpa [pCONECT] using ih
+
+
+end pdb
+
 end Iodata.Traj
